@@ -156,6 +156,90 @@ func (c *Ctx) frozenGlobal(g *ssa.Global) bool {
 	return c.frozen[g]
 }
 
+// keyFrozenMap: g is a package-level map that functions only look entries up in, range over or take
+// the length of. Its set of keys is the one the initialiser built, whatever happens to the values.
+func (c *Ctx) keyFrozenMap(g *ssa.Global) bool {
+	if _, isMap := g.Type().(*types.Pointer).Elem().Underlying().(*types.Map); !isMap {
+		return false
+	}
+	if c.keyFrozen == nil {
+		c.keyFrozen = map[*ssa.Global]bool{}
+	}
+	if v, done := c.keyFrozen[g]; done {
+		return v
+	}
+	ok := true
+	for _, fn := range c.modFuncs {
+		if fn.Blocks == nil || (fn.Name() == "init" && fn.Signature.Recv() == nil && fn.Parent() == nil) {
+			continue
+		}
+		for _, b := range fn.Blocks {
+			for _, ins := range b.Instrs {
+				for _, op := range ins.Operands(nil) {
+					if *op != ssa.Value(g) {
+						continue
+					}
+					ld, isL := ins.(*ssa.UnOp)
+					if _, isD := ins.(*ssa.DebugRef); isD {
+						continue
+					}
+					if !isL || ld.Op != token.MUL || ld.Referrers() == nil {
+						ok = false
+						continue
+					}
+					for _, ref := range *ld.Referrers() {
+						switch x := ref.(type) {
+						case *ssa.Lookup:
+							if x.X != ssa.Value(ld) {
+								ok = false
+							}
+						case *ssa.Range, *ssa.DebugRef:
+						case *ssa.Call:
+							if bi, isB := x.Call.Value.(*ssa.Builtin); !isB || bi.Name() != "len" {
+								ok = false
+							}
+						default:
+							ok = false
+						}
+					}
+				}
+			}
+		}
+	}
+	c.keyFrozen[g] = ok
+	return ok
+}
+
+// initialKeys: the cell of a key-frozen map with the keys of the initialiser and unknown values.
+func (c *Ctx) initialKeys(g *ssa.Global) *cell {
+	if g.Pkg == nil || !c.InModulePkg(g.Pkg.Pkg) || !c.keyFrozenMap(g) {
+		return nil
+	}
+	if c.initCells == nil {
+		c.initCells = map[*ssa.Package]map[*ssa.Global]*cell{}
+	}
+	cells, done := c.initCells[g.Pkg]
+	if !done {
+		in := NewInterp(c)
+		in.tolerant = true
+		in.MaxSteps = 2000000
+		if f := g.Pkg.Func("init"); f != nil && f.Blocks != nil {
+			in.callInit(f)
+		}
+		cells = in.gcells
+		c.initCells[g.Pkg] = cells
+	}
+	ic := cells[g]
+	if ic == nil || ic.v.k != kMap || ic.v.m == nil || ic.v.m.opaque {
+		return nil
+	}
+	m := &amap{entries: map[string]aval{}}
+	for k := range ic.v.m.entries {
+		m.entries[k] = aval{k: kUnknown}
+	}
+	return &cell{v: aval{k: kMap, typ: ic.v.typ, m: m}}
+}
+
 func containsRefType(t types.Type) bool {
 	switch u := t.Underlying().(type) {
 	case *types.Signature:
